@@ -218,6 +218,23 @@ CHECKS = {
               'toy mechanistic model and Gaussian priors (independent value reference + finite differences).'),
         technique='contract-based deductive verification: symbolic execution of the real class against recording stubs, mechanically differentiated specification',
     ),
+    'C16': dict(
+        category='proof',
+        text=('Ghost-provenance proof: every random draw made by the real code is an atom (stream, call number, entry); for the sample methods '
+              'of the four error models, the Gaussian / non-centred / log-normal / truncated / heterogeneous / composed / covariate / reduced '
+              'population models, PredictiveModel, PopulationPredictiveModel, the model choice of PAMPredictiveModel and '
+              'sample_initial_parameters of the three posteriors, traced with a symbolic integer seed (every control-flow path the seed can '
+              'steer), it is proved that all atoms of the result belong to streams that are functions of the seed and that nothing is drawn '
+              'from the global generator in its previous state (seed.determines / seed.distinct), that distinct result entries share no draw '
+              'except where the generative process prescribes it (an individual\'s own parameters across its measurements; population values '
+              'within an initial point) (seed.independent), and that a generator passed as seed is used and advanced, not re-created '
+              '(seed.generator).'),
+        design_ref='DESIGN.md section 4 (C16)',
+        note=('Assumed contracts of numpy.random / scipy truncnorm / pints priors (pvc/ghost.py); mechanistic model by contract; structure '
+              '2 outputs x 2 times x 2 samples; PosteriorPredictiveModel / PriorPredictiveModel table assembly (xarray / pandas) is exercised '
+              'under C15 (bounded).  Two genuine defects found by this check were repaired (fix commits b968792, ae3859b).'),
+        technique='contract-based deductive verification with ghost RNG state: provenance of every draw in the symbolically executed real code',
+    ),
 }
 NOT_APPLICABLE = {}
 
@@ -236,4 +253,5 @@ CHECK_MODULES = {
     'C11': 'contracts.c11',
     'C12': 'contracts.c12',
     'C13': 'contracts.c13',
+    'C16': 'contracts.c16',
 }
